@@ -140,8 +140,7 @@ impl<F: Float + SampleUniform + std::fmt::Debug, D: Hash + Copy, H: Hasher + Def
         //
         if self.nb_empty > 0 {
             // now we run densification if necessary
-            let res = self.densify();
-            assert!(res.is_ok());
+            self.densify()?;
         }
         //
         Ok(())
@@ -186,6 +185,10 @@ impl<F: Float + SampleUniform + std::fmt::Debug, D: Hash + Copy, H: Hasher + Def
     fn densify(&mut self) -> anyhow::Result<()> {
         // now we run densification
         let m: usize = self.hsketch.len();
+        if self.nb_empty as usize >= m {
+            // nothing was sketched : there is no populated bin to copy from, the search would never end
+            return Err(anyhow::anyhow!("densify : no item sketched"));
+        }
         let mut nbpass = 1u64;
         let inrange = Uniform::<usize>::new(0, m).unwrap();
         for k in 0..m {
@@ -341,8 +344,7 @@ impl<F: Float + SampleUniform + std::fmt::Debug, D: Hash + Copy, H: Hasher + Def
         //
         if self.nb_empty > 0 {
             // now we run densification if necessary
-            let res = self.densify();
-            assert!(res.is_ok());
+            self.densify()?;
         }
         log::debug!(
             "fastdensminhash::sketch_slice sketch size : {:?},  nb empy slots : {:?}",
@@ -359,6 +361,10 @@ impl<F: Float + SampleUniform + std::fmt::Debug, D: Hash + Copy, H: Hasher + Def
     fn densify(&mut self) -> anyhow::Result<()> {
         // now we run densification
         let m: usize = self.hsketch.len();
+        if self.nb_empty as usize >= m {
+            // nothing was sketched : no bin can ever be filled, the passes would never end
+            return Err(anyhow::anyhow!("densify : no item sketched"));
+        }
         let unif_m = Uniform::<usize>::new(0, m).unwrap();
         let mut pass: u64 = 1;
         while self.nb_empty > 0 {
